@@ -17,6 +17,7 @@ import json
 import math
 import os
 import re
+import shutil
 from fractions import Fraction
 
 from common import qlit, qlist, zlit, coqc, coqc_many, parse_evals, parse_zlist, VERIF
@@ -293,10 +294,18 @@ WL_REP = {0: "wavelength", 1: "beam_cx_pec", 2: "beam_emission_pec"}     # an ac
 class History:
     """one repository, one OpenADAS instance; every op is executed on the real code and written as a Coq hop"""
 
-    def __init__(self, ctx, scratch, tag, flags, cf):
-        self.repo = I.fresh_repo(scratch, "h_%s" % tag)
+    def __init__(self, ctx, scratch, tag, flags, cf, form=0, default_path=False):
+        if default_path:
+            # repository_path=None everywhere and OpenADAS() without data_path: the default repository under $HOME
+            d, usable = I.default_repository()
+            assert usable, d
+            shutil.rmtree(d, ignore_errors=True)
+            self.repo = None
+        else:
+            self.repo = I.fresh_repo(scratch, "h_%s" % tag)
         self.flags, self.cf, self.ctx = flags, cf, ctx
-        self.adas = I.make_adas(self.repo, *flags)
+        self.adas = I.make_adas(self.repo, *flags, form=form)
+        self.n_calls = 0
         self.scale, self.decoy, self.wl, self.wl_n = {}, set(), {}, {}
         self.ops, self.observed, self.log = [], [], []
 
@@ -342,7 +351,8 @@ class History:
         we = g * 6 + v * 3
         self.ctx.crumb({"history_call": [acc.name, v, k1, k2], "flags": self.flags, "so_far": self.log[-12:]})
         try:
-            obj = I.call(acc, self.adas, I.species(acc, 1, k1), I.species(acc, 2, k2), variant=v)
+            self.n_calls += 1
+            obj = I.call(acc, self.adas, I.species(acc, 1, k1), I.species(acc, 2, k2), variant=v, argform=self.n_calls % 3)
         except Exception as e:           # the outcome of this call; compared with the model inside Coq
             out = "PRaise %s" % I.err_name(e)
         else:
@@ -363,7 +373,7 @@ def run_histories(ctx, scratch, cf, quick):
         pairs = ([("el", "el"), ("iso", "el"), ("el", "iso"), ("iso", "iso"), ("iso2", "iso2"), ("iso2", "iso"), ("el", "el"),
                   ("iso", "iso")] if acc.slots == 2 else [("el", "el"), ("iso", "el"), ("iso2", "el"), ("iso", "el"), ("el", "el"), ("el", "el")])
         # H1: everything stored; element / isotope / second isotope / same species twice; then the content changes
-        h = History(ctx, scratch, "a%d" % ai, flagsets[ai % 8], cf)
+        h = History(ctx, scratch, "a%d" % ai, flagsets[ai % 8], cf, form=ai % 4)
         if acc.name != "wavelength":
             h.set_rate(acc, 0)
             h.set_decoy(acc, 0)
@@ -381,7 +391,8 @@ def run_histories(ctx, scratch, cf, quick):
         h.call(acc, 0, "el", "el")
         hs.append(h)
         # H2: isotope first, data arriving while the provider lives, the other charge / transition interleaved
-        h = History(ctx, scratch, "b%d" % ai, flagsets[(ai + 3) % 8], cf)
+        h = History(ctx, scratch, "b%d" % ai, flagsets[(ai + 3) % 8], cf, form=(ai + 1) % 4,
+                    default_path=(ai % 5 == 0 and I.default_repository()[1]))
         h.call(acc, 0, "iso", "iso")
         h.call(acc, 0, "el", "el")
         if acc.name != "wavelength":
@@ -403,7 +414,8 @@ def run_histories(ctx, scratch, cf, quick):
         hs.append(h)
     # random histories: all 14 accessors, charges / transitions / donors interleaved on one provider
     for r in range(24 if quick else 240):
-        h = History(ctx, scratch, "r%d" % (r % 8), rng.choice(flagsets), cf)
+        h = History(ctx, scratch, "r%d" % (r % 8), rng.choice(flagsets), cf, form=r % 4,
+                    default_path=(r % 6 == 0 and I.default_repository()[1]))
         for _ in range(rng.randint(25, 45)):
             u = rng.random()
             acc = rng.choice(I.ACCS)
@@ -466,7 +478,9 @@ def histories_tie(ctx, hs):
     return {"histories": len(hs), "calls": n_calls, "repository_additions": sum(len(h.ops) - len(h.observed) for h in hs),
             "outcomes": _hist(o.split()[0] for h in hs for o in h.observed),
             "calls_by_accessor": _hist(l.split("(")[0] for h in hs for l in h.log if "->" in l),
-            "failing_histories": len(bad), "sample": hs[0].log[:8]}
+            "failing_histories": len(bad), "sample": hs[0].log[:8],
+            "histories_on_the_default_repository_path": sum(1 for h in hs if h.repo is None),
+            "call_argument_forms": "charge / metastable as int or numpy integer, transition as tuple, list of numpy integers or strings, in rotation"}
 
 
 def _hist(it):
@@ -529,25 +543,45 @@ def single_pattern(rng, family, rnd):
     return tuple(rng.random() < 0.3 for _ in range(5))
 
 
+def rescale(family, d, kt, ka):
+    """table values x 2^kt, axes x 2^ka (exact in binary floating point): magnitudes far from the usual ones"""
+    ft, fa = 2.0 ** kt, 2.0 ** ka
+    mul = lambda v, f: [mul(x, f) for x in v] if isinstance(v, list) else v * f
+    tables = {"2d": ["rate"], "3d": ["rate"], "beam": ["sen", "st", "sref"], "cx": ["qeb", "qti", "qni", "qz", "qb", "qref"]}[family]
+    axes = {"2d": ["ne", "te"], "3d": ["ne", "te", "td"], "beam": ["e", "n", "t", "eref", "nref", "tref"],
+            "cx": ["eb", "ti", "ni", "z", "b"]}[family]
+    return {k: (mul(v, ft) if k in tables else mul(v, fa) if k in axes else v) for k, v in d.items()}
+
+
 def gen_data(rng, family, rnd):
-    style = rng.choice(["nice", "full"])
+    d, style = gen_data0(rng, family, rnd)
+    if style == "scaled":
+        d = rescale(family, d, rng.randint(-200, 200), rng.randint(-60, 60))
+    return d, style
+
+
+def gen_data0(rng, family, rnd):
+    style = rng.choice(["nice", "full", "scaled"])
     single = single_pattern(rng, family, rnd)
+    two = rnd % 6 == 2                     # every axis that is not single-point has exactly two points
+    _randint = rng.randint
+    lo_len = lambda hi: 2 if two else _randint(2, hi)
     if family in ("2d", "3d"):
         dims = 2 if family == "2d" else 3
-        lens = [1 if single[k] else rng.randint(2, 6 if family == "2d" else 4) for k in range(dims)]
+        lens = [1 if single[k] else lo_len(6 if family == "2d" else 4) for k in range(dims)]
         d = {"ne": gen_axis(rng, lens[0], 16, 21, style), "te": gen_axis(rng, lens[1], -1, 4, style)}
         if family == "3d":
             d["td"] = gen_axis(rng, lens[2], -1, 4, style)
         d["rate"] = gen_values(rng, lens)
         return d, style
     if family == "beam":
-        le, ln, lt = [1 if single[k] else rng.randint(2, 5) for k in range(3)]
+        le, ln, lt = [1 if single[k] else lo_len(5) for k in range(3)]
         d = {"e": gen_axis(rng, le, 2.5, 5.5, style), "n": gen_axis(rng, ln, 17, 21, style),
              "t": gen_axis(rng, lt, 0, 4.5, style), "sen": gen_values(rng, [le, ln]), "st": gen_values(rng, [lt])}
         d["sref"] = d["st"][rng.randrange(lt)] if rng.random() < 0.5 else 10 ** rng.uniform(-15, -13)
         d["eref"], d["nref"], d["tref"] = d["e"][0], d["n"][0], d["t"][0]
         return d, style
-    lens = [1 if single[k] else rng.randint(2, 5) for k in range(5)]
+    lens = [1 if single[k] else lo_len(5) for k in range(5)]
     d = {"eb": gen_axis(rng, lens[0], 2.5, 5.5, style), "ti": gen_axis(rng, lens[1], 0, 4.5, style),
          "ni": gen_axis(rng, lens[2], 17, 21, style), "z": gen_axis(rng, lens[3], 1.0, 6.0, style, linear=True),
          "b": gen_axis(rng, lens[4], 0.5, 8.0, style, linear=True)}
@@ -559,8 +593,8 @@ def gen_data(rng, family, rnd):
     return d, style
 
 
-def gen_points(rng, family, data, max_nodes):
-    """[(class, args)] -- node / inside / guard / outside"""
+def gen_points(rng, family, data, max_nodes, pe=False):
+    """[(class, args)] -- node / inside / guard / outside / ulp-inside / ulp-outside / far-outside / node-again"""
     axes = I.axes_of(family, data)
     pts = []
     all_idx = list(itertools.product(*[range(len(a)) for a in axes]))
@@ -595,20 +629,66 @@ def gen_points(rng, family, data, max_nodes):
             args = node_args()
             args[k] = x
             pts.append(("outside", args))
+    # exact boundaries of the comparisons in evaluate(): -0.0 at the guard; one ulp inside the first / last knot
+    # (in range); one ulp outside (closer to the bound than log10 can resolve: counted as ambiguous, only 'raises or
+    # finite >= 0' is asked, not sent to the exact comparison); without extrapolation also the smallest subnormal and 1e300
+    g = rng.choice(I.guarded_args(family))
+    args = node_args()
+    args[g] = -0.0
+    pts.append(("guard", args))
+    multi = [k for k, a in enumerate(axes) if len(a) > 1]
+    if multi:
+        k = rng.choice(multi)
+        a = axes[k]
+        for x, cls in ((math.nextafter(a[0], math.inf), "ulp-inside"), (math.nextafter(a[-1], 0.0), "ulp-inside"),
+                       (math.nextafter(a[0], 0.0), "ulp-outside"), (math.nextafter(a[-1], math.inf), "ulp-outside")):
+            args = node_args()
+            args[k] = x
+            pts.append((cls, args))
+        if not pe:
+            k = rng.choice(multi)
+            for x in (5e-324, 1e300):
+                args = node_args()
+                args[k] = x
+                pts.append(("far-outside", args))
+    # one live object: the classes are interleaved (value, zero, raise, value ...), and after everything else the
+    # object must still give the stored values
+    rng.shuffle(pts)
+    nodes = [pt for pt in pts if pt[0] == "node"]
+    pts += [("node-again", list(args)) for _, args in rng.sample(nodes, min(2, len(nodes)))]
     return pts
+
+
+FORMS = ["list", "ndarray", "tuple", "fortran-readonly", "float32", "strided"]
 
 
 def gen_object(rng, acc, rnd, max_nodes=40):
     data, style = gen_data(rng, acc.family, rnd)
+    form = FORMS[rnd % len(FORMS)] if rng.random() < 0.7 else rng.choice(FORMS)
+    if form == "float32" and style != "scaled":
+        import numpy as np
+        r32 = lambda v: [r32(x) for x in v] if isinstance(v, list) else float(np.float32(v))
+        data = {k: r32(v) for k, v in data.items()}
+        axes = I.axes_of(acc.family, data)
+        if any(b <= a for ax in axes for a, b in zip(ax, ax[1:])):
+            form = "ndarray"
+    elif form == "float32":
+        form = "ndarray"                   # 2^+-200 magnitudes are outside the float32 range
     spec = {"acc": acc.name, "family": acc.family, "pe": rng.random() < 0.5, "null": rng.random() < 0.5,
             "fb": rng.random() < 0.5, "k1": rng.choice(["el", "iso"]),
-            "k2": rng.choice(["el", "iso"]) if acc.slots == 2 else "el", "data": data, "style": style}
+            "k2": rng.choice(["el", "iso"]) if acc.slots == 2 else "el", "data": data, "style": style,
+            "form": form, "adas_form": rnd % 4}
+    if acc.name == "beam_cx_pec":
+        # the provider returns one rate per stored donor metastable: several of them, stored in any order
+        extra = rng.sample([(1, 11.0), (3, 13.0), (5, 17.0)], rng.randint(0, 2) if rnd % 3 else 2)
+        spec["metastables"] = extra
+        spec["store_order"] = rng.sample([I.MS] + [m for m, _ in extra], 1 + len(extra))
     lam_i, lam_e = rng.uniform(90.0, 1100.0), rng.uniform(90.0, 1100.0)
     spec["wl_iso"], spec["wl_el"] = lam_i, lam_e
     kind_w = spec["k2"] if acc.wl_slot == 2 else spec["k1"]
     if acc.photon and kind_w == "iso" and rng.random() < 0.25:
         spec["wl_iso"], spec["fb"] = None, True          # element's wavelength through the documented fallback
-    spec["points"] = gen_points(rng, acc.family, data, max_nodes)
+    spec["points"] = gen_points(rng, acc.family, data, max_nodes, pe=spec["pe"])
     # the same provider is asked several times: first for the other species kind of the same line (the kind of the
     # species that owns the wavelength is flipped for photon accessors), then for the object under test, then for it
     # again, then -- after the repository got a new table (x 7) and new wavelengths -- once more
@@ -642,17 +722,25 @@ def spec_wavelength(acc, spec):
     return spec["wl_el"]
 
 
-def fetch(acc, adas, sub):
+def evaluate_all(rate, sub):
+    """every point on the same live object, cycling through the three ways of calling it"""
+    return [I.evalpt(rate, args, style=i % 3) for i, (_, args) in enumerate(sub["points"])]
+
+
+def fetch(acc, adas, sub, argform=0):
     sp1, sp2 = I.species(acc, 1, sub["k1"]), I.species(acc, 2, sub["k2"])
     try:
-        obj = I.call(acc, adas, sp1, sp2)
+        obj = I.call(acc, adas, sp1, sp2, argform=argform)
     except Exception as e:       # recorded and judged by the property statement below
         return {"construct": ("raise", I.err_name(e), "%s: %s" % (type(e).__name__, str(e)[:160])), "outs": []}
-    rate = obj[0] if isinstance(obj, list) and len(obj) == 1 else obj
-    if isinstance(rate, list):
-        return {"construct": ("bad", "beam_cx_pec returned %d rates for one stored metastable" % len(rate)), "outs": []}
-    outs = [I.evalpt(rate, args) for _, args in sub["points"]]
-    return {"construct": ("ok",), "outs": outs, "impl_wavelength": getattr(rate, "wavelength", None)}
+    rate = obj
+    if isinstance(obj, list):
+        want = sorted([I.MS] + [m for m, _ in sub.get("metastables", [])])
+        got = sorted(getattr(r, "donor_metastable", None) for r in obj)
+        if got != want:
+            return {"construct": ("bad", "beam_cx_pec returned rates for donor metastables %s, stored: %s" % (got, want)), "outs": []}
+        rate = [r for r in obj if r.donor_metastable == sub.get("ms", I.MS)][0]
+    return {"construct": ("ok",), "outs": evaluate_all(rate, sub), "impl_wavelength": getattr(rate, "wavelength", None)}
 
 
 def run_sequence(spec, scratch, tag):
@@ -664,14 +752,29 @@ def run_sequence(spec, scratch, tag):
     el1, iso1 = I.species(acc, 1, "el"), I.species(acc, 1, "iso")
     el2, iso2 = I.species(acc, 2, "el"), I.species(acc, 2, "iso")
     seq = spec.get("seq") or [{"what": "main"}]
+    form = spec.get("form", "list")
+    extras = spec.get("metastables", [])
+
+    def canon(data):
+        """the numbers the repository receives: in the float32 form every value is first rounded to float32"""
+        if form != "float32":
+            return data
+        import numpy as np
+        r32 = lambda v: [r32(x) for x in v] if isinstance(v, list) else float(np.float32(v))
+        return {k: r32(v) for k, v in data.items()}
+
+    def put(sp1, sp2, data, ms=None):
+        I.store_rate(acc, repo, sp1, sp2, I.apply_form(acc.family, canon(data), form), metastable=ms)
 
     def store(data, wl_iso, wl_el):
-        I.store_rate(acc, repo, el1, el2, data)
+        for ms in spec.get("store_order", [None]):
+            f = dict(extras).get(ms, 1.0)
+            put(el1, el2, I.scaled(acc.family, data, f) if f != 1.0 else data, ms)
         # different tables under the isotope paths: an isotope request must not pick them up
-        I.store_rate(acc, repo, iso1, el2, I.scaled(acc.family, data, 2.0))
+        put(iso1, el2, I.scaled(acc.family, data, 2.0))
         if acc.slots == 2:
-            I.store_rate(acc, repo, el1, iso2, I.scaled(acc.family, data, 3.0))
-            I.store_rate(acc, repo, iso1, iso2, I.scaled(acc.family, data, 5.0))
+            put(el1, iso2, I.scaled(acc.family, data, 3.0))
+            put(iso1, iso2, I.scaled(acc.family, data, 5.0))
         if acc.photon:
             if wl_iso is not None:
                 I.store_wavelength(acc, repo, iso1, iso2, wl_iso)
@@ -679,22 +782,52 @@ def run_sequence(spec, scratch, tag):
                 I.store_wavelength(acc, repo, el1, el2, wl_el)
     cur = {"data": spec["data"], "wl_iso": spec["wl_iso"], "wl_el": spec["wl_el"]}
     store(cur["data"], cur["wl_iso"], cur["wl_el"])
-    adas = I.make_adas(repo, spec["pe"], spec["null"], spec["fb"])       # the one long-lived provider
+    adas = I.make_adas(repo, spec["pe"], spec["null"], spec["fb"], form=spec.get("adas_form", 0))   # the one long-lived provider
     out = []
-    for step in seq:
-        if step["what"] == "after-repository-change":
-            cur = {"data": I.scaled(acc.family, cur["data"], step["table_factor"]),
-                   "wl_iso": None if cur["wl_iso"] is None else cur["wl_iso"] * step["wl_factor"],
-                   "wl_el": None if cur["wl_el"] is None else cur["wl_el"] * step["wl_factor"]}
-            store(cur["data"], cur["wl_iso"], cur["wl_el"])
+
+    def sub_of(step, **over):
         sub = dict(spec, **cur)
         sub.pop("seq", None)
         sub.pop("_maxrel", None)
         sub["step"] = step["what"]
         sub["k1"], sub["k2"] = step.get("k1", spec["k1"]), step.get("k2", spec["k2"])
         sub["points"] = spec["points"] if step["what"] == "main" else step["points"]
-        out.append((sub, fetch(acc, adas, sub)))
+        sub.update(over)
+        return sub
+    for n, step in enumerate(seq):
+        if step["what"] == "after-repository-change":
+            cur = {"data": canon(I.scaled(acc.family, cur["data"], step["table_factor"])),
+                   "wl_iso": None if cur["wl_iso"] is None else cur["wl_iso"] * step["wl_factor"],
+                   "wl_el": None if cur["wl_el"] is None else cur["wl_el"] * step["wl_factor"]}
+            store(cur["data"], cur["wl_iso"], cur["wl_el"])
+        sub = sub_of(step)
+        out.append((sub, fetch(acc, adas, sub, argform=n % 3)))
+        if step["what"] == "main":
+            for ms, f in extras:            # the other donor metastables of the same request
+                sub = sub_of({"what": "other-metastable", "points": step_points(spec, 3)}, ms=ms,
+                             data=canon(I.scaled(acc.family, cur["data"], f)))
+                out.append((sub, fetch(acc, adas, sub)))
+    if "seq" in spec:
+        # the rate class constructed directly (not through the provider), extrapolate by keyword / position / default
+        sub = sub_of({"what": "direct-construction", "points": step_points(spec, 4, ("node", "outside", "guard"))})
+        lam = spec_wavelength(acc, sub)
+        if not (acc.photon and lam is None):
+            try:
+                rate = I.direct_rate(acc, sub["data"], lam, spec["pe"], I.species(acc, 1, sub["k1"]), how=len(spec["points"]) % 3)
+            except Exception as e:   # judged by judge_construct like an accessor failure
+                out.append((sub, {"construct": ("raise", I.err_name(e), "%s: %s" % (type(e).__name__, str(e)[:160])), "outs": []}))
+            else:
+                out.append((sub, {"construct": ("ok",), "outs": evaluate_all(rate, sub),
+                                  "impl_wavelength": getattr(rate, "wavelength", None)}))
     return out
+
+
+def step_points(spec, n, classes=("node",)):
+    """a deterministic small selection of the object's points (first n of the wanted classes, one per class first)"""
+    sel = []
+    for c in classes:
+        sel += [pt for pt in spec["points"] if pt[0] == c][:max(1, n // len(classes))]
+    return sel[:n] if len(sel) >= n else sel
 
 
 def log10_endpoint_mismatch(family, data, args):
@@ -707,9 +840,7 @@ def log10_endpoint_mismatch(family, data, args):
         if len(a) < 2:
             continue
         la = np.log10(np.array(a, dtype=float))
-        if args[k] == a[0] and math.log10(args[k]) < la[0]:
-            return True
-        if args[k] == a[-1] and math.log10(args[k]) > la[-1]:
+        if a[0] <= args[k] <= a[-1] and not (la[0] <= math.log10(args[k]) <= la[-1]):
             return True
     return False
 
@@ -741,7 +872,7 @@ def judge_point(spec, lam, cf, args, out):
         return None if out[0] == "val" and out[1] >= 0 else (
             "c07:%s:range-finite" % acc, "outside the tabulated range with permit_extrapolation: not a finite non-negative value: %s" % (out,))
     if out[0] != "val":
-        if node and out[0] == "raise" and not spec["pe"] and log10_endpoint_mismatch(family, data, args):
+        if out[0] == "raise" and not spec["pe"] and log10_endpoint_mismatch(family, data, args):
             return (K_ENDPOINT, "evaluating exactly at an end grid point raised (knots use numpy.log10, evaluate uses libm "
                                 "log10; they differ by one ulp for this value): %s" % (out,))
         return ("c07:%s:inside" % acc, "inside the tabulated range: %s" % (out,))
@@ -895,7 +1026,8 @@ def run(ctx):
     findings = {}          # key -> (text, replay)
     obj_lines, pt_lines, pt_meta = [], [], []      # pt_meta[i] = (spec index, point index or -1 for wf, verdict key)
     dist = {"objects_by_accessor": {}, "axis_lengths": {}, "point_classes": {}, "flags": {}, "species": {},
-            "construct_failures": 0, "objects_with_single_point_axis": 0, "style": {}, "returned_objects_by_step": {}}
+            "construct_failures": 0, "objects_with_single_point_axis": 0, "style": {}, "returned_objects_by_step": {}, "ambiguous_not_compared_exactly": 0,
+            "container_forms": {}, "provider_constructor_forms": {}, "beam_cx_metastables_per_request": {}}
     n_eval, maxrel = 0, 0.0
     shards = []
     subs = []               # every object a provider returned: (sub-spec, origin spec index)
@@ -910,6 +1042,11 @@ def run(ctx):
         fl = "pe=%d fb=%d" % (s0["pe"], s0["fb"])
         dist["flags"][fl] = dist["flags"].get(fl, 0) + 1
         dist["style"][s0.get("style", "corpus")] = dist["style"].get(s0.get("style", "corpus"), 0) + 1
+        for dk, dv in (("container_forms", s0.get("form", "list")), ("provider_constructor_forms", s0.get("adas_form", 0))):
+            dist[dk][dv] = dist[dk].get(dv, 0) + 1
+        if "metastables" in s0:
+            nm = 1 + len(s0["metastables"])
+            dist["beam_cx_metastables_per_request"][nm] = dist["beam_cx_metastables_per_request"].get(nm, 0) + 1
         for s, res in run_sequence(s0, scratch, "%d" % (si0 % 8)):
             si = len(subs)
             subs.append(s)
@@ -930,6 +1067,15 @@ def run(ctx):
             for pi, ((cls, args), out) in enumerate(zip(s["points"], res["outs"])):
                 n_eval += 1
                 dist["point_classes"][cls] = dist["point_classes"].get(cls, 0) + 1
+                if cls == "ulp-outside":
+                    # one ulp beyond the first / last knot: the margin of the range decision is below what log10 resolves.
+                    # Ambiguous (DESIGN 5.2): only 'raises, or a finite value >= 0' is asked; no exact comparison in Coq.
+                    dist["ambiguous_not_compared_exactly"] += 1
+                    if not (out[0] == "raise" or (out[0] == "val" and out[1] >= 0)):
+                        findings.setdefault("c07:%s:ulp-outside" % s["acc"],
+                                            ("one ulp outside the tabulated range: neither an exception nor a finite value >= 0: %s" % (out,),
+                                             {"object": _replay_obj(s), "args": [float(a).hex() for a in args], "observed": out}))
+                    continue
                 v = judge_point(s, lam, cf, args, out)
                 if v:
                     key = v[0] if s["step"] == "main" or v[0] in (K_SINGLE, K_ENDPOINT) else v[0] + ":" + s["step"]
@@ -972,6 +1118,22 @@ def run(ctx):
     vc = parse_evals(outc) if okc else []
     ctx.obligation("PhotonToJ.conversion_factor == h c 1e9 (exact SI values), relative 2^-40, inside Coq", "correspondence",
                    okc and len(vc) == 1 and parse_zlist(vc[0]) == [], outc)
+    import numpy as np
+    from cherab.core.utility.conversion import PhotonToJ as P2J
+    xs = np.array([10 ** rng.uniform(-40, -5) for _ in range(50)])
+    ws = [rng.uniform(50.0, 2000.0) for _ in range(50)]
+    conv_bad = []
+    for w in ws[:5]:
+        arr = P2J.to(xs, w)
+        for x, y in zip(xs, arr):
+            want = Fraction(*float(x).as_integer_ratio()) / Fraction(*w.as_integer_ratio()) * Fraction(*cf.as_integer_ratio())
+            if not (abs(float(y) - float(want)) <= 1e-14 * float(want) and float(y) == P2J.to(float(x), w)
+                    and abs(P2J.inv(float(y), w) / float(x) - 1) <= 1e-14):
+                conv_bad.append((float(x).hex(), w, float(y)))
+    ctx.obligation("PhotonToJ.to == x / wavelength * factor (exact rational, 1e-14), array == scalar, inv(to(x)) == x (250 values)",
+                   "search", not conv_bad, str(conv_bad[:3]))
+    if conv_bad:
+        ctx.violation("c07:conversion:PhotonToJ", "PhotonToJ.to / inv is not x / wavelength * h c 1e9 and back", {"cases": conv_bad[:5]})
     n_diff = n_unexplained = 0
     for f, lo, n in files:
         ok, out = res[f]
